@@ -376,6 +376,9 @@ class Interp:
                 out.append((s, mk(items)))
         return out
 
+    def ev_Set(self, n, st):
+        return self._ev_seq(n.elts, st, lambda items: TupleV(items, is_list=True))
+
     def ev_Dict(self, n, st):
         keys = [k for k in n.keys]
         if any(k is None for k in keys):
